@@ -1,6 +1,7 @@
 import Driver.Codec
 import Driver.FromJson
 import TartModel.Impl.ExecT
+import TartModel.Impl.Subscription
 import TartModel.Generated.Scalars
 /- Line-protocol driver: one JSON request per line on stdin, one JSON answer per line on stdout. -/
 open Lean Tart Tart.Codec Tart.FromJson
@@ -86,6 +87,22 @@ def handle (j : Json) : Except String Json := do
                         ("final", fin), ("ok", Json.bool sr.ok), ("tree_agrees_with_direct", Json.bool agrees),
                         ("weight", Json.num (weight ans tree : Nat)),
                         ("direct", encodeResponse direct)])
+  | "subscribe" =>
+    let S ← decodeSchema (← j.getObjVal? "schema")
+    let doc ← decodeDocument (← j.getObjVal? "doc")
+    let env ← decodeEnv ((j.getObjVal? "env").toOption.getD Json.null)
+    let o ← decodeOracle ((j.getObjVal? "stf").toOption.getD Json.null)
+    let opName := match optField j "op_name" with | some (Json.str s) => some s | _ => none
+    let vars ← match optField j "vars" with
+      | some v => decodeKVs v
+      | none => pure []
+    let events ← (arrField j "events").mapM decode
+    let rs := subscribeResponses 100000 S o env doc opName vars events
+    let sa := match sourceArguments 100000 S o env doc opName vars with
+      | some (c, args) => Json.mkObj [("coord", Json.str c), ("args", encode (.dict args))]
+      | none => Json.null
+    pure (Json.mkObj [("responses", Json.arr (rs.map encodeResponse).toArray), ("source", sa),
+                      ("refused", Json.bool (preflight 100000 S o doc opName vars).isSome)])
   | "echo" => pure (Json.mkObj [("ok", encode (← decode (← j.getObjVal? "value")))])
   | _ => throw s!"unknown op {op}"
 
